@@ -94,7 +94,8 @@ def evalStep (env : Env) (impl : FmtImpl) (cfg : Cfg) (rec : Rec) : Rec := fun i
     match scopeOf cfg kvs with
     | .ok scope => withScopeOpt env scope (schemaBody env impl cfg rec inst kvs)
     | .error cls => crashG cls
-  | _ => crashG "AttributeError"
+  | .num _ => crashG "TypeError"        -- `"$ref" in schema` of `id_of`
+  | _ => crashG "AttributeError"        -- `"$ref" in schema` answers for strings and lists: `schema.get`
 
 /-- tie the knot: `fuel` bounds the nesting of `iter_errors` calls -/
 def eval (env : Env) (impl : FmtImpl) (cfg : Cfg) : Nat → Rec
